@@ -1845,3 +1845,407 @@ class LoadOrder(FlattenEquiv):
                     d = "".join(list(difflib.unified_diff(a.splitlines(1), b.splitlines(1), base["what"], v["what"], n=2))[:40])
                     return (None, "%s: %s differs from the first order:\n%s" % (v["what"], what, d[:1500]))
         return None
+
+
+# ------------------------------------------------------------------------------------------------
+# history independence
+# ------------------------------------------------------------------------------------------------
+class Family:
+    """a module family with dependency chains THROUGH modules without data nodes:
+      ha  features f1 f2 (f3), identity base-id, typedef ta, container ac           (imports nothing)
+      hc  container cc                                                               (imports ht only, if present)
+      hb  NO data nodes: imports ha, hc (hf, hi): augments of /hc:cc with if-feature / when / leafref / identityref /
+          default that refer to ha (hf, hi)
+      hg  grouping-only (imports ha), used by the data module he (which imports hg only)
+      hi  identity-only (imports ha): identities derived from a:base-id, one with if-feature a:f2
+      hf  feature-only: feature g1 (used by hb)
+      hd  deviation-only (imports hc, ha): replaces the type of /hc:cc/hc:cl by a typedef of ha, adds a default
+      ht  typedef-only, imported by hc"""
+
+    def __init__(self, rng):
+        self.rng = rng
+        opt = {k: rng.random() < p for k, p in (("hg", 0.6), ("hi", 0.5), ("hf", 0.5), ("hd", 0.4), ("ht", 0.4))}
+        self.opt = opt
+        self.feat_mods = {"ha": ["f1", "f2"] + (["f3"] if rng.random() < 0.4 else [])}
+        if opt["hf"]:
+            self.feat_mods["hf"] = ["g1"]
+        self.i2_iff = rng.choice(self.qfeat()) if rng.random() < 0.5 else "ha:f2"        # if-feature of identity hi:i2
+        self.probes = []        # (schema path, if-feature AST over qualified feature names) for the Python expectation
+        self.texts = {}
+        self.docs = []          # (label, xml, condition AST or None = only compared between histories)
+        self.before = []        # (m1, m2): m1 has to be implemented before m2 is loaded
+        # hc depends on ha only through a typedef-only / deviation-only module: listed finding
+        # depset-skips-typedef-deviation-modules (patch /var/tmp/patches/compile-6.diff; remove with the fix)
+        self.depset_risk = False
+        self.build()
+
+    def qfeat(self):
+        return [m + ":" + f for m, fs in self.feat_mods.items() for f in fs]
+
+    def iff(self, depth=1):
+        rng = self.rng
+        fs = self.qfeat()
+        r = rng.random()
+        if depth == 0 or r < 0.5:
+            return rng.choice(fs)
+        if r < 0.65:
+            return ("not", self.iff(depth - 1))
+        return (rng.choice(["and", "or"]), self.iff(depth - 1), self.iff(depth - 1))
+
+    @staticmethod
+    def iff_txt(e, pmap, top=True):
+        if isinstance(e, str):
+            m, f = e.split(":")
+            return (pmap[m] + ":" if pmap[m] else "") + f
+        if e[0] == "not":
+            return "not " + Family.iff_txt(e[1], pmap, False)
+        t = "%s %s %s" % (Family.iff_txt(e[1], pmap, False), e[0], Family.iff_txt(e[2], pmap, False))
+        return t if top else "(" + t + ")"
+
+    def build(self):
+        rng, opt = self.rng, self.opt
+        T = self.texts
+        ha = "module ha {yang-version 1.1; namespace urn:ha; prefix a;\n"
+        for f in self.feat_mods["ha"]:
+            ha += "  feature %s;\n" % f
+        ha += "  identity base-id; identity id0 {base base-id;}\n  typedef ta {type int8 {range \"1..20\";}}\n"
+        ha += "  typedef tae {type enumeration {enum d1; enum d2 {if-feature f1;}}}\n"
+        af = self.iff(0) if rng.random() < 0.5 else None
+        ha += "  container ac {leaf al {type string;} leaf-list am {type ta;}"
+        if af and af.startswith("ha:"):
+            ha += " leaf af {if-feature %s; type string;}" % af.split(":")[1]
+            self.probes.append(("/ha:ac/ha:af", af))
+        ha += "}\n}\n"
+        T["ha"] = ha
+        self.ht_dep = None
+        if opt["ht"]:
+            ht = "module ht {yang-version 1.1; namespace urn:ht; prefix t;\n"
+            if rng.random() < 0.6:
+                # the typedef-only module itself depends on ha: an enum under if-feature (hc -> ht -> ha)
+                self.ht_dep = rng.choice(["ha:f1", "ha:f2"])
+                ht += "  import ha {prefix a;}\n  typedef te {type enumeration {enum e1; enum e2 {if-feature a:%s;}}}\n" % self.ht_dep.split(":")[1]
+            ht += "  typedef tt {type string {length \"1..8\";}}\n}\n"
+            T["ht"] = ht
+            self.depset_risk = self.depset_risk or bool(self.ht_dep)
+        hc = "module hc {yang-version 1.1; namespace urn:hc; prefix c;\n"
+        if opt["ht"]:
+            hc += "  import ht {prefix t;}\n"
+        hc += "  container cc {leaf cl {type %s;} list cli {key k; leaf k {type string;}}\n" % ("t:tt" if opt["ht"] else "string")
+        if self.ht_dep:
+            hc += "    leaf ce {type t:te;}\n"
+            self.docs.append(("enum-of-typedef-module", '<cc xmlns="urn:hc"><ce>e2</ce></cc>', self.ht_dep))
+            self.docs.append(("enum-e1", '<cc xmlns="urn:hc"><ce>e1</ce></cc>', None))
+        hc += "    choice cch {case c1 {leaf c1l {type string;}}}\n  }\n}\n"
+        T["hc"] = hc
+        # hb: no data nodes of its own (now and then absent: then nothing but the chains below connects the modules)
+        keep = (list(self.probes), list(self.docs), list(self.before))
+        pm = {"ha": "a", "hf": "f"}
+        hb = "module hb {yang-version 1.1; namespace urn:hb; prefix b;\n  import ha {prefix a;}\n  import hc {prefix c;}\n"
+        if opt["hf"]:
+            hb += "  import hf {prefix f;}\n"
+        if opt["hi"]:
+            hb += "  import hi {prefix i;}\n"
+        ex = self.iff(rng.choice([0, 1, 1, 2]))
+        aug_iff = self.iff(0) if rng.random() < 0.3 else None
+        hb += "  augment /c:cc {\n"
+        if aug_iff:
+            hb += "    if-feature \"%s\";\n" % self.iff_txt(aug_iff, pm)
+
+        def cond(e):
+            return e if aug_iff is None else (("and", aug_iff, e) if e is not None else aug_iff)
+        hb += "    leaf x {if-feature \"%s\"; type string;}\n    leaf y {type string;}\n" % self.iff_txt(ex, pm)
+        self.probes.append(("/hc:cc/hb:x", cond(ex)))
+        self.probes.append(("/hc:cc/hb:y", cond(None)))
+        self.docs.append(("x", '<cc xmlns="urn:hc"><x xmlns="urn:hb">v</x></cc>', cond(ex)))
+        if rng.random() < 0.7:
+            el = self.iff(1) if rng.random() < 0.6 else None
+            hb += "    leaf lr {%stype leafref {path \"/a:ac/a:al\";}}\n" % ("if-feature \"%s\"; " % self.iff_txt(el, pm) if el else "")
+            self.probes.append(("/hc:cc/hb:lr", cond(el)))
+            self.docs.append(("leafref", '<ac xmlns="urn:ha"><al>on</al></ac><cc xmlns="urn:hc"><lr xmlns="urn:hb">on</lr></cc>', cond(el)))
+            self.docs.append(("leafref-dangling", '<ac xmlns="urn:ha"><al>on</al></ac><cc xmlns="urn:hc"><lr xmlns="urn:hb">off</lr></cc>', "never"))
+        if rng.random() < 0.7:
+            dfl = ""
+            if rng.random() < 0.5:
+                # libyang (without LY_CTX_REF_IMPLEMENTED) takes identities of implemented modules only, by design: the
+                # module with the default has to be loaded after the module of the identity
+                if opt["hi"] and rng.random() < 0.5:
+                    dfl = " default i:i3;"
+                    self.before += [("hi", "hb"), ("ha", "hb")]
+                else:
+                    dfl = " default a:id0;"
+                    self.before.append(("ha", "hb"))
+            hb += "    leaf idr {type identityref {base a:base-id;}%s}\n" % dfl
+            self.probes.append(("/hc:cc/hb:idr", cond(None)))
+            self.docs.append(("idref-id0", '<cc xmlns="urn:hc"><idr xmlns="urn:hb" xmlns:a="urn:ha">a:id0</idr></cc>', cond(None)))
+            if opt["hi"]:
+                self.docs.append(("idref-i2", '<cc xmlns="urn:hc"><idr xmlns="urn:hb" xmlns:i="urn:hi">i:i2</idr></cc>',
+                                  ("and", cond(None), self.i2_iff) if cond(None) is not None else self.i2_iff))
+                self.docs.append(("idref-i3", '<cc xmlns="urn:hc"><idr xmlns="urn:hb" xmlns:i="urn:hi">i:i3</idr></cc>', cond(None)))
+        if rng.random() < 0.6:
+            hb += "    leaf w {when \"/a:ac/a:al = 'on'\"; type string;}\n"
+            self.docs.append(("when-true", '<ac xmlns="urn:ha"><al>on</al></ac><cc xmlns="urn:hc"><w xmlns="urn:hb">1</w></cc>', cond(None)))
+            self.docs.append(("when-false", '<ac xmlns="urn:ha"><al>no</al></ac><cc xmlns="urn:hc"><w xmlns="urn:hb">1</w></cc>', "never"))
+        hb += "  }\n"
+        if rng.random() < 0.5:
+            ez = self.iff(1)
+            hb += "  augment /c:cc/c:cli {leaf z {if-feature \"%s\"; type a:ta;}}\n" % self.iff_txt(ez, pm)
+            self.probes.append(("/hc:cc/hc:cli/hb:z", ez))
+        if rng.random() < 0.4:
+            ecs = self.iff(1)
+            hb += "  augment /c:cc/c:cch {case c2 {if-feature \"%s\"; leaf c2l {type string;}}}\n" % self.iff_txt(ecs, pm)
+            self.probes.append(("/hc:cc/hb:c2l", ecs))        # (a data path: choice and case are not named)
+        hb += "}\n"
+        if rng.random() < 0.75:
+            if rng.random() < 0.3:
+                # the imports and the augments live in a submodule, the module itself has nothing but the include
+                body = hb.split("prefix b;\n", 1)[1]
+                T["hb-sub"] = "submodule hb-sub {yang-version 1.1; belongs-to hb {prefix b;}\n" + body
+                hb = "module hb {yang-version 1.1; namespace urn:hb; prefix b;\n  include hb-sub;\n}\n"
+            T["hb"] = hb
+        else:
+            self.probes, self.docs, self.before = keep
+        if opt["hf"]:
+            T["hf"] = "module hf {yang-version 1.1; namespace urn:hf; prefix f;\n  feature g1;\n}\n"
+        if opt["hi"]:
+            q = self.i2_iff
+            T["hi"] = ("module hi {yang-version 1.1; namespace urn:hi; prefix i;\n  import ha {prefix a;}\n%s"
+                       "  identity i2 {base a:base-id; if-feature %s;}\n  identity i3 {base a:base-id;}\n}\n" %
+                       ("  import hf {prefix f;}\n" if q.startswith("hf:") else "", self.iff_txt(q, {"ha": "a", "hf": "f"})))
+        if opt["hg"]:
+            eg = self.iff(1)
+            egq = eg
+            pm2 = {"ha": "a", "hf": "f"}
+            hg = "module hg {yang-version 1.1; namespace urn:hg; prefix g;\n  import ha {prefix a;}\n"
+            uses_f = any(x.startswith("hf:") for x in re.findall(r"h[af]:\w+", repr(eg)))
+            if uses_f:
+                hg += "  import hf {prefix f;}\n"
+            hg += "  grouping g {leaf gl {if-feature \"%s\"; type a:ta;} leaf gm {type leafref {path \"/a:ac/a:al\";}}\n" % self.iff_txt(eg, pm2)
+            hg += "    leaf gi {type identityref {base a:base-id;}}}\n}\n"
+            T["hg"] = hg
+            T["he"] = ("module he {yang-version 1.1; namespace urn:he; prefix e;\n  import hg {prefix g;}\n"
+                       "  container ec {uses g:g;}\n}\n")
+            self.probes.append(("/he:ec/he:gl", egq))
+            self.probes.append(("/he:ec/he:gm", None))
+            self.docs.append(("grouping-leaf", '<ec xmlns="urn:he"><gl>5</gl></ec>', egq))
+        if opt["hd"]:
+            hd = "module hd {yang-version 1.1; namespace urn:hd; prefix d;\n  import hc {prefix c;}\n  import ha {prefix a;}\n"
+            if rng.random() < 0.5:
+                hd += "  deviation /c:cc/c:cl {deviate replace {type a:ta;} deviate add {default 7;}}\n}\n"
+                self.docs.append(("deviated-type-ok", '<cc xmlns="urn:hc"><cl>5</cl></cc>', None))
+                self.docs.append(("deviated-type-bad", '<cc xmlns="urn:hc"><cl>abc</cl></cc>', "never"))
+            else:
+                # the new type has an enum under a feature of ha: hc depends on ha only through the deviation-only module
+                hd += "  deviation /c:cc/c:cl {deviate replace {type a:tae;}}\n}\n"
+                self.docs.append(("deviated-enum-d1", '<cc xmlns="urn:hc"><cl>d1</cl></cc>', None))
+                self.docs.append(("deviated-enum-d2", '<cc xmlns="urn:hc"><cl>d2</cl></cc>', "ha:f1"))
+            T["hd"] = hd
+            self.depset_risk = self.depset_risk or "a:tae" in hd
+        else:
+            self.docs.append(("cl", '<cc xmlns="urn:hc"><cl>abc</cl></cc>', None))
+        # a module that does not compile (leafref to a node that does not exist): loading it must leave no trace
+        T["hx"] = ("module hx {yang-version 1.1; namespace urn:hx; prefix x;\n  import ha {prefix a;}\n  import hc {prefix c;}\n"
+                   "  augment /c:cc {leaf bad {type leafref {path \"/a:ac/a:nosuch\";}}}\n  feature fx;\n}\n")
+        self.loadable = [m for m in ("ha", "hc", "hf", "hi", "hg", "he", "hb", "hd") if m in T]     # ht only through import
+
+
+def ev(e, env):
+    if e is None:
+        return True
+    if e == "never":
+        return False
+    return iff_eval(e, env)
+
+
+class HistoryIndep(FlattenEquiv):
+    """C11 (search): the compiled schema is a function of the final set of implemented modules and the final feature
+    states only. Module families with dependency chains through modules WITHOUT data nodes (augment-only, grouping-only,
+    identity-only, feature-only, deviation-only, typedef-only) and if-feature / when / leafref / identityref / default
+    references crossing modules are brought to one final state along different histories: every load order; features
+    given at load time or changed afterwards with lys_set_implemented (on, off, on-then-off); LY_CTX_EXPLICIT_COMPILE
+    with one or several ly_ctx_compile(); failed operations in between (unknown module, unknown feature, a module that
+    does not compile). Compared with the reference history (and with the if-feature denotation computed in Python):
+    module list with implemented flags and enabled features, LYS_OUT_YANG_COMPILED print of every module, the schema
+    node sets, lys_find_path probes and the verdicts on instance documents."""
+    name = "history-indep"
+
+    def history(self, rng, fam, final, kind):
+        """-> (description, context options, [commands without the context word])"""
+        mods = list(fam.loadable)
+        allf = {m: ",".join(fs) for m, fs in fam.feat_mods.items()}
+
+        def farg(m, env):
+            if m not in fam.feat_mods:
+                return "-"
+            return ",".join(f for f in fam.feat_mods[m] if env[m + ":" + f]) or "-"
+        if kind == "reference":
+            return ("reference: every module loaded once with its final features", 0, [("load", m, farg(m, final)) for m in mods])
+        rng.shuffle(mods)
+        if kind == "dataless-first":
+            mods.sort(key=lambda m: 0 if m in ("hb", "hg", "hi", "hd") else 1)
+        if kind == "features-last":
+            mods.sort(key=lambda m: 1 if m in fam.feat_mods else 0)
+        for _ in range(4):
+            for m1, m2 in fam.before:
+                if mods.index(m1) > mods.index(m2):
+                    mods.remove(m1)
+                    mods.insert(mods.index(m2), m1)
+        opts = 0x80 if kind.startswith("explicit") or (kind == "random" and rng.random() < 0.3) else 0
+        steps, later = [], []
+        for m in mods:
+            if m in fam.feat_mods:
+                mode = rng.choice(["at-load", "later", "on-off", "off-on", "later"]) if kind not in ("order",) else "at-load"
+                if kind == "set-after-all":
+                    mode = rng.choice(["later", "on-off", "off-on"])
+                other = {q: rng.random() < 0.5 for q in fam.qfeat()}
+                if mode == "at-load":
+                    steps.append(("load", m, farg(m, final)))
+                elif mode == "later":
+                    steps.append(("load", m, farg(m, other)))
+                    later.append([("setimpl", m, farg(m, final))])
+                elif mode == "on-off":
+                    steps.append(("load", m, farg(m, final)))
+                    later.append([("setimpl", m, allf[m]), ("setimpl", m, farg(m, final))])
+                else:
+                    steps.append(("load", m, farg(m, other)))
+                    later.append([("setimpl", m, "-"), ("setimpl", m, farg(m, final))])
+            else:
+                steps.append((rng.choice(["load", "load", "modtxt"]), m, "-"))
+        # the later feature changes: after all loads (the interesting place) or somewhere after the load of their module
+        for grp in later:
+            m = grp[0][1]
+            first = next(i for i, s_ in enumerate(steps) if s_[1] == m and s_[0] in ("load", "modtxt")) + 1
+            pos = len(steps) if (kind == "set-after-all" or rng.random() < 0.6) else rng.randrange(first, len(steps) + 1)
+            for k, st in enumerate(grp):
+                steps.insert(pos + k, st)
+                if len(grp) > 1 and k == 0 and rng.random() < 0.5:
+                    pos = len(steps) - 1 - k      # the second change at the very end
+        if opts:
+            for pos in sorted((rng.randrange(1, len(steps) + 1) for _ in range(rng.choice([0, 1, 2]))), reverse=True):
+                steps.insert(pos, ("compile", None, None))
+            steps.append(("compile", None, None))
+            if rng.random() < 0.3:
+                steps.append(("compile", None, None))
+        if kind in ("failed-ops", "random"):
+            for _ in range(rng.choice([1, 2, 3])):
+                bad = rng.choice([("load!", "nosuch", "-"), ("setimpl!", "ha", "nofeature"), ("modtxt!", "hx", "fx"),
+                                  ("setimpl!", "nosuch", "-"), ("load!", "ha", "f1,nofeature")])
+                if opts and bad[1] == "hx":
+                    continue          # (its failure would only show in the next ly_ctx_compile)
+                if opts:
+                    # with LY_CTX_EXPLICIT_COMPILE a failing call also reverts what earlier successful calls left pending
+                    # (listed under C09: ctx-explicit-revert-pending); here a failing call only comes when nothing is pending
+                    allowed = [0] + [i + 1 for i, s_ in enumerate(steps) if s_[0] == "compile"]
+                    steps.insert(rng.choice(allowed), bad)
+                else:
+                    steps.insert(rng.randrange(len(steps) + 1), bad)
+        return ("%s%s: %s" % (kind, " (explicit compile)" if opts else "",
+                              " ; ".join("%s %s %s" % (a, b or "", c or "") for a, b, c in steps)), opts, steps)
+
+    def build_case(self, rng):
+        fam = Family(rng)
+        final = {q: rng.random() < 0.5 for q in fam.qfeat()}
+        cmds, meta = [], []
+
+        def add(cmd, *m):
+            cmds.append(cmd)
+            meta.append(m)
+        for k, v in fam.texts.items():
+            add("def s/%s %s" % (k, hexs(v)), "def")
+        kinds = ["reference", "order", "order", "set-after-all", "set-after-all", "dataless-first", "features-last",
+                 "explicit", "explicit", "failed-ops", "random", "random", "random"]
+        exp_nodes = {p: ev(e, final) for p, e in fam.probes}
+        for hi_, kind in enumerate(kinds):
+            what, opts, steps = self.history(rng, fam, final, kind)
+            c = "c%d" % (hi_ % 8)
+            add("ctx %s %d s" % (c, opts), "ctx", hi_, what, fam.depset_risk)
+            for op, m, f in steps:
+                fail = op.endswith("!")
+                op = op.rstrip("!")
+                if op == "compile":
+                    add("compile %s" % c, "step", hi_, False)
+                else:
+                    add("%s %s %s %s" % (op, c, m, f), "step", hi_, fail)
+            add("mods %s" % c, "obs", hi_, "module list")
+            for m in fam.loadable + (["ht"] if "ht" in fam.texts else []):
+                add("schema %s %s" % (c, m), "obs", hi_, "compiled print of " + m)
+            for m in ("ha", "hc", "he"):
+                if m in fam.texts:
+                    add("snodes %s %s" % (c, m), "obs", hi_, "schema nodes of " + m)
+            for p, e in fam.probes:
+                add("spath %s %s" % (c, hexs(p)), "probe", hi_, p, exp_nodes[p])
+            for lab, x, e in fam.docs:
+                add("data %s x %s" % (c, hexs(x)), "doc", hi_, lab, (None if e is None else ev(e, final)))
+        line = "flat\t" + "\t".join(cmds)
+        self.cases[line] = meta
+        return line
+
+    def gen(self, rng, tier, scale=1.0):
+        return [self.build_case(rng) for _ in range(self.n(tier, 60, 1500, scale))]
+
+    def judge(self, line, out):
+        if crashed(out):
+            return (None, "crash: " + out)
+        meta = self.cases.get(line)
+        if meta is None:
+            return None
+        r = out.split(" | ")
+        if len(r) != len(meta):
+            return (None, "protocol: %d results for %d commands" % (len(r), len(meta)))
+        var = {}
+        v_risk = False
+        for m, x in zip(meta, r):
+            if m[0] == "def":
+                continue
+            v = var.setdefault(m[1], {"what": "", "obs": [], "steps": []})
+            if m[0] == "ctx":
+                v["what"] = m[2]
+                v_risk = m[3]
+            elif m[0] == "step":
+                v["steps"].append((m[2], x))
+            else:
+                v["obs"].append((m, x))
+        ref = var[0]
+        ENUM_DOCS = ("enum-of-typedef-module", "deviated-enum-d2")
+        known_hit = None
+        for vi in sorted(var):
+            v = var[vi]
+            for fail, x in v["steps"]:
+                ok = x.split("/")[0] == "0"
+                if ok == fail:
+                    if vi == 0:
+                        self.skipped += 1
+                        return None
+                    return (None, "history [%s]: a step %s (%s)" % (v["what"], "fails" if not fail else "succeeds although it must fail",
+                                                                    [x_ for _, x_ in v["steps"]]))
+            problems = []            # (is an instance of the listed dep-set finding, text)
+            for (m, x), (_, x0) in zip(v["obs"], ref["obs"]):
+                if m[0] == "probe" and (x == "1") != m[3]:
+                    problems.append((False, "lys_find_path(%s) = %s, the if-feature denotation says %s" % (m[2], x, m[3])))
+                if m[0] == "doc":
+                    acc = x.split("~")[0].split(" ")[0] == "0"
+                    if m[3] is not None and acc != m[3]:
+                        problems.append((m[2] in ENUM_DOCS, "document %s %s, expected %s (%s)" %
+                                         (m[2], "accepted" if acc else "rejected", "valid" if m[3] else "invalid", x[:100])))
+                if m[0] == "obs" and m[2] == "module list":
+                    x, x0 = ";".join(sorted(x.split(";"))), ";".join(sorted(x0.split(";")))      # the order is that of loading
+                if x != x0:
+                    a, known = x0 + "\n" + x, False
+                    if m[0] == "obs" and m[2].startswith("compiled print") and " " in x and " " in x0:
+                        import difflib
+                        d = list(difflib.unified_diff(unhex(x0.split(" ")[1]).decode().splitlines(1),
+                                                      unhex(x.split(" ")[1]).decode().splitlines(1), "reference", "history", n=2))
+                        a = "".join(d[:30])
+                        changed = {ln[1:].strip() for ln in d[2:] if ln[:1] in "+-"}
+                        known = m[2] == "compiled print of hc" and changed <= {'enum "e2" {', 'enum "d2" {', "value 1;", "}"}
+                    elif m[0] == "doc":
+                        known = m[2] in ENUM_DOCS
+                    problems.append((known, "%s differs from the reference history:\n%s" % (m[2], a[:1200])))
+            if problems:
+                if v_risk and all(k for k, _ in problems):
+                    # an instance of the listed finding; the other histories are still judged
+                    known_hit = known_hit or ("depset-skips-typedef-deviation-modules",
+                                              "history [%s]: %s" % (v["what"], problems[0][1][:600]))
+                    continue
+                bad = [t for k, t in problems if not (k and v_risk)]
+                return (None, "history [%s]: %s" % (v["what"], bad[0]))
+        return known_hit
